@@ -196,8 +196,18 @@ impl Recovery {
     ) {
         self.receiver_supports_sack |= header.extensions.selective_ack.is_some();
 
+        // While duplicates are not being counted (recovery in progress, nothing in flight) still
+        // remember the latest ACK: once counting resumes, the ACKs that repeat it are its
+        // duplicates. Otherwise the first of them is taken for the baseline and fast retransmit
+        // needs four duplicates instead of three.
+        let last_ack = LastAck {
+            window: header.wnd_size,
+            ack_nr: header.ack_nr,
+        };
+
         match &mut self.phase {
             RecoveryPhase::IgnoringUntilRecoveryPoint { recovery_point } => {
+                self.last_ack = Some(last_ack);
                 if header.ack_nr >= *recovery_point {
                     event!(RECOVERY_TRACING_LOG_LEVEL, ?recovery_point, ?header.ack_nr, "exiting IgnoringUntilRecoveryPoint");
                     self.phase = RecoveryPhase::CountingDuplicates { dup_acks: 0 }
@@ -210,6 +220,7 @@ impl Recovery {
                     None => {
                         // The queue is empty, don't count ACKs.
                         *dup_acks = 0;
+                        self.last_ack = Some(last_ack);
                         return;
                     }
                 };
@@ -252,6 +263,7 @@ impl Recovery {
                 self.phase = RecoveryPhase::Recovering(rec);
             }
             RecoveryPhase::Recovering(rec) => {
+                self.last_ack = Some(last_ack);
                 if header.ack_nr >= rec.recovery_point {
                     // From rfc6582 NewReno "Full Acknowledgements" section.
                     // On recover we set cwnd very conservatively not to cause a sudden burst of traffic.
